@@ -228,6 +228,20 @@ var forms = []form{
 
 	// ------------------------------------------------------------------------------------------
 	// optimizer: diverging statements followed by further statements
+	// expression statements whose value is dropped: evaluating them can still fail or have effects
+	{name: "opt-stmt-index-oob", main: m(`println("a"); [1, 2, 3][7]; println("after");`)},
+	{name: "opt-stmt-div-zero", main: m(`println("a"); 1 / 0; println("after");`)},
+	{name: "opt-stmt-mod-zero", main: m(`println("a"); 5 % 0; println("after");`)},
+	{name: "opt-stmt-shift-negative", main: m(`println("a"); 1 << (0 - 1); println("after");`)},
+	{name: "opt-stmt-str-index-oob", main: m(`println("a"); "abc"[5]; println("after");`)},
+	{name: "opt-stmt-call-in-index", main: "fn next() -> int { println(\"next\"); 1 }\n" + m(`[10, 20, 30][next()]; println("after");`)},
+	{name: "opt-stmt-call-in-list", main: "fn next() -> int { println(\"next\"); 1 }\n" + m(`[next(), 2]; println("after");`)},
+	{name: "opt-stmt-harmless-constants", main: m(`1 + 2; [1, 2][0]; "a" + "b"; true && false; 1.5 * 2.0; println("after");`)},
+	{name: "opt-stmt-in-function", main: "fn f() -> int { [1][3]; 5 }\n" + m(`println("a"); println(f()); println("after");`)},
+	{name: "opt-stmt-in-nested-block", main: m(`println("a"); if true { [1][3]; } println("after");`)},
+	{name: "opt-stmt-in-loop", main: m(`for i in 0..3 { println(i); [1, 2][i]; } println("after");`)},
+	{name: "opt-stmt-in-try", main: m(`try { [1][3]; println("not here"); } catch e { println("caught"); } println("after");`)},
+	{name: "opt-stmt-caught-cast", main: m(`try { ("x".parse_json() as str); println("no"); } catch e { println("caught"); } println("after");`)},
 	{name: "opt-return-then-stmts", main: "fn f() -> int { println(\"in\"); return 1; println(\"dead\"); 2 }\n" + m(`println(f());`)},
 	{name: "opt-return-then-let-tail", main: "fn f() -> int { return 1; let x = 2; x }\n" + m(`println(f());`)},
 	{name: "opt-return-then-let-used", main: "fn f() -> int { return 1; let x = 2; println(x); let y = x + 1; y }\n" + m(`println(f());`)},
